@@ -108,7 +108,8 @@ def prim(s):
 
 
 FIELD_NAMES = ["position", "normal", "uv", "color", "weights", "indices", "m", "a", "b", "c", "d", "scale", "bias",
-               "data", "count", "flags", "inner", "items", "pad0", "tint", "v", "w", "mvp", "bones", "k", "t0", "t1"]
+               "data", "count", "flags", "inner", "items", "pad0", "tint", "v", "w", "mvp", "bones", "k", "t0", "t1",
+               "_pad0", "_padding", "_pad", "padding", "_unused", "reserved", "x_", "self_", "len", "size", "align"]
 
 
 class Gen:
